@@ -296,8 +296,8 @@ def run_fan(ctx, p):
     w = (vt - vh) * t0
     span = max(float(V.max() - V.min()), 1e-3 * (abs(V).max() + 1e-300)) * t0
     a, b = xd0 + t0 * V.min() - 0.3 * span, xd0 + t0 * V.max() + 0.3 * span
-    cell = (b - a) / 10000.0
     gen = which == "GenEOS"
+    cell = RC.geneos_cell(ctx, st, xd0, a, b, t0) if gen else (b - a) / 10000.0
     if w <= (60 * cell if gen else 1e-9 * span):
         raise Skip("fan_too_narrow")
     x0 = xd0 + t0 * (vh + p["f"] * (vt - vh))
